@@ -388,6 +388,10 @@ def run():
                 pcases.append(('axi', npts, g, 'chi0' if npts[1] % 2 == 0 else 'chi1', chk.seed % 997))
                 pcases.append(('reuse', npts, g, 'chi0', chk.seed % 997))
                 pcases.append(('poison', npts, g, 'chi0', chk.seed % 997))
+    # a single z plane per process (as many processes along z as z points): array shapes with an extent of 1
+    for g in ((1, 1), (1, 7)) if quick else ((1, 1), (1, 7), (2, 7)):
+        pcases.append(('pipe', [8, 8, 7, 8], g, 'chi0', chk.seed % 997))
+        pcases.append(('pipe', [8, 8, 7, 8], g, 'kinetic', chk.seed % 997))
     pres = implrun.run_cases('props.c15', 'pipe_case', pcases, tmo=900.0, chunk=1)
     serial = {}
     pipe_phi = {}
